@@ -1,3 +1,113 @@
-import Babylon.Core.Proto
-/-! Line-protocol driver for property C16 (stub). -/
-def main : IO Unit := Babylon.Core.runLines (fun (s : Unit) _ => (s, "bad-op")) ()
+import Babylon.Core.Trace
+import Babylon.ExecQ.Model
+/-! Lock-step replay driver for property C16 (ConcurrentExecutionQueue).
+stdin: runs `RUN <seed> cap=<n> …` / VRT trace lines / `END`; stdout: `ok <n>` | `diverge <why>`.
+
+* L1: every trace line on `events` must be exactly the next action of that thread in the model (kind,
+  memory order, operands, value read = model memory).
+* L2: harness events (`push`, `signal`, `launch …`, `consumer_begin/end`, `cb_begin`, `consume`, `cb_end`,
+  `join_begin/end`, `ret …`) must be the model thread's next step / agree with the model's return code.
+* queue tie (the queue is abstracted by its specification): `rmw add pushidx` = take an index, the
+  producer's `st slot rel` = publish, the consumer's `st popidx` = batch pop of that many items (which
+  the model only allows for a published prefix), the consumer's first `ld slot` showing an unpublished
+  head = empty poll (which the model only allows if the head index is unpublished).  Other queue-internal
+  lines (wait loops, scan loads of published slots, slot release stores, fences) carry no model step. -/
+open Babylon.Core Babylon.ExecQ Babylon.Gen.ExecQ
+
+structure RState where
+  c : Cfg
+  s : State
+
+def initR (hdr : List String) : RState :=
+  let cap := (hdr.filterMap (fun h => if h.startsWith "cap=" then (h.drop 4).toNat? else none)).head?.getD 1
+  { c := { cap := cap }, s := State.init }
+
+def showPc (p : Pc) : String := reprStr p
+
+/-- perform the model step of thread `t` under `inp` and require its label to be the observed action -/
+def lock (r : RState) (t : Nat) (inp : Inp) (a : Act) : Except String RState :=
+  match stepThread r.c r.s t inp with
+  | none => .error s!"implementation performs {reprStr a} but the model thread (pc {showPc (r.s.pc t)}) has no such step enabled"
+  | some (s', l) =>
+    if l = a then .ok { r with s := s' }
+    else .error s!"model (pc {showPc (r.s.pc t)}) expects {reprStr l}, implementation did {reprStr a}"
+
+def rcOf (w : String) : Option Nat := if w == "0" then some 0 else if w == "-1" then some 1 else none
+
+def stepObs (r : RState) (o : Obs) : Except String RState :=
+  let t := o.tid
+  let pc := r.s.pc t
+  match Act.ofObs o with
+  | none => .error "unknown trace line"
+  | some (.ev ["push", v]) =>
+    match v.toNat? with
+    | none => .error "bad value"
+    | some v => if pc = .idle then .ok { r with s := callExecute r.s t v } else .error s!"execute called while the model thread is at {showPc pc}"
+  | some (.ev ["signal"]) =>
+    if pc = .idle then .ok { r with s := callSignal r.s t } else .error s!"signal_push_event called while the model thread is at {showPc pc}"
+  | some (.ev ["join_begin"]) =>
+    if pc = .idle then .ok { r with s := callJoin r.s t } else .error s!"join called while the model thread is at {showPc pc}"
+  | some (.ev ["join_end"]) =>
+    if pc = .idle then .ok r else .error s!"join returned but the model thread is at {showPc pc}"
+  | some (.ev ["ret", _, rc]) =>
+    if pc ≠ .idle then .error s!"call returned but the model thread is at {showPc pc}"
+    else if rcOf rc = some (r.s.result t) then .ok r
+    else .error s!"call returned {rc}, model return code is {r.s.result t} (1 = -1)"
+  | some (.ev ["launch", "refuse"]) => lock r t (.launch .refuse) (.ev ["launch", "refuse"])
+  | some (.ev ["launch", "accept", "inline"]) => lock r t (.launch .inl) (.ev ["launch", "accept", "inline"])
+  | some (.ev ["launch", "accept", "async"]) => lock r t (.launch .async) (.ev ["launch", "accept", "async"])
+  | some (.ev ["consumer_begin"]) =>
+    match pc with
+    | .c0 (.inl _) => .ok r
+    | .idle =>
+      if 0 < r.s.launched then .ok { r with s := startWorker r.s t }
+      else .error "a consumer starts on an idle thread but the model has no accepted launch pending"
+    | _ => .error s!"consumer_begin while the model thread is at {showPc pc}"
+  | some (.ev ["consumer_end"]) =>
+    if pc = .idle then .ok r else .error s!"consume_until_empty returned but the model consumer is at {showPc pc}"
+  | some (.ev ("cb_begin" :: ws)) => lock r t .none (.ev ("cb_begin" :: ws))
+  | some (.ev ("consume" :: ws)) => lock r t .none (.ev ("consume" :: ws))
+  | some (.ev ["cb_end"]) => lock r t .none (.ev ["cb_end"])
+  | some (.ev _) => .ok r            -- oracle verdicts, statistics
+  | some (.spawn _) | some (.join _) | some .exit | some (.fence _) => .ok r
+  | some (.rmw op "pushidx" off mo old v) => lock r t .none (.rmw op "pushidx" off mo old v)
+  | some (.ld "popidx" _ _ v) =>
+    match pc with
+    | .cPop _ _ _ => if v = r.s.head then .ok r else .error s!"pop index read {v}, model head is {r.s.head}"
+    | _ => .error s!"pop index read while the model thread is at {showPc pc}"
+  | some (.st "popidx" off mo v) =>
+    match pc with
+    | .cPop _ _ _ =>
+      if r.s.head < v then lock r t (.pop (v - r.s.head)) (.st "popidx" off mo v)
+      else .error s!"pop index stored {v}, model head is {r.s.head}"
+    | _ => .error s!"pop index stored while the model thread is at {showPc pc}"
+  | some (.ld "slot" off mo v) =>
+    match pc with
+    | .pPublish _ _ => .ok r                      -- producer waiting for its slot
+    | .cPop _ _ true => .ok r                     -- scan after a delivered batch: no model step
+    | .cPop _ _ false =>
+      -- the scan starts at the head slot; an unpublished head ends the poll with 0
+      if off = slotOff r.c r.s.head ∧ v % 65536 ≠ (pushVersion r.c r.s.head + 1) % 65536 then
+        lock r t (.pop 0) (.ld "slot" off mo v)
+      else .ok r
+    | _ => .error s!"slot version read while the model thread is at {showPc pc}"
+  | some (.st "slot" off mo v) =>
+    match pc with
+    | .pPublish _ _ => lock r t .none (.st "slot" off mo v)
+    | .cPop _ _ true => .ok r                     -- consumer hands the slots of the delivered batch back
+    | _ => .error s!"slot version stored while the model thread is at {showPc pc}"
+  | some (.ld "events" off mo v) =>
+    match pc with
+    | .cPop _ _ true => lock r t .reload (.ld "events" off mo v)
+    | _ => lock r t .none (.ld "events" off mo v)
+  | some a => lock r t .none a
+
+def finalR (r : RState) : Except String Unit :=
+  if r.s.events ≠ 0 then .error s!"trace ended with model events = {r.s.events}"
+  else if r.s.launched ≠ 0 then .error "trace ended with an accepted launch that never started"
+  else if r.s.head ≠ r.s.tail ∨ r.s.ncons ≠ r.s.tail then
+    .error s!"trace ended with unconsumed items in the model (tail {r.s.tail}, head {r.s.head}, consumed {r.s.ncons})"
+  else .ok ()
+
+def main : IO Unit := do
+  replayLoop (← IO.getStdin) initR stepObs finalR
